@@ -56,6 +56,17 @@ def map34(ctx):
         paths = ev.run_fn(ctx.fn(MIL, f43), [y], {})
         back = _ret(paths)
         ctx.ob('MAP34', loc + f43, '%s 4->3 after 3->4 is the identity (no loss)' % what, back is not None and equal(back, x, deep=False), 'got %s' % (None if back is None else back.tolist(),), node=ctx.fn(MIL, f43))
+        # a block of index sets with two leading axes (planes on a grid): every leading axis kept in the caller's order, both ways
+        g3 = symarray('g', (2, 3, 3), real=True)
+        try:
+            g4 = _ret(_run1(ctx, MIL, f34, [g3]))
+            okg = g4 is not None and np.shape(g4) == (2, 3, 4) and all(equal(np.asarray(g4[i_, j_], dtype=object), np.asarray(_ret(_run1(ctx, MIL, f34, [g3[i_, j_]])), dtype=object), deep=False) for i_ in range(2) for j_ in range(3))
+            gb = _ret(SymEval(module_aliases(ctx.mod(MIL))).run_fn(ctx.fn(MIL, f43), [g4], {})) if okg else None
+            okg = okg and gb is not None and np.shape(gb) == (2, 3, 3) and equal(np.asarray(gb, dtype=object), g3, deep=False)
+            detg = 'shape %s' % (None if g4 is None else np.shape(g4),)
+        except (Opaque, WouldRaise) as e:
+            okg, detg = False, str(e)[:200]
+        ctx.ob('MAP34', loc + f34, '%s 3->4 and back on a (2, 3, 3) block: entry [i, j] of the result is the conversion of entry [i, j] (leading axes in the caller\'s order)' % what, bool(okg), detg, node=ctx.fn(MIL, f34), key='block ' + f34)
         # 3->4 after 4->3 on the constraint surface
         u = symarray('u', (2, 4), real=True)
         for r in range(2):
@@ -331,6 +342,26 @@ def util(ctx):
         ctx.ob('UTIL', loc + 'all_indices', 'all_indices(1) lists every triple of {-1,0,1}^3 except (000), each exactly once', rows == want, 'got %d rows' % (len(rows) if rows else -1), node=ctx.fn(MIL, 'all_indices'))
     except Opaque as e:
         raise AnalysisError('all_indices: %s' % e)
+    # all_indices(2, reduce=True): every coprime triple within the range, each exactly once
+    def unique(a, axis=None, return_index=False, **k):
+        if k:
+            raise Opaque('np.unique keyword(s) %s outside the model' % sorted(k))
+        ai = np.array([[int(v) for v in row] for row in np.asarray(a, dtype=object)] if np.ndim(a) == 2 else [int(v) for v in np.ravel(a)], dtype=np.int64)
+        out = np.unique(ai, axis=axis, return_index=return_index)
+        conv = lambda z: np.array([sp.Integer(int(v)) for v in np.ravel(z)], dtype=object).reshape(np.shape(z))
+        return (conv(out[0]), out[1]) if return_index else conv(out)
+    evr = SymEval(module_aliases(ctx.mod(MIL)), funcs={'reduce_indices': ctx.fn(MIL, 'reduce_indices')})
+    evr.np_override = dict(ev.np_override, **{'numpy.unique': unique, 'numpy.gcd.reduce': gcd_model})
+    try:
+        r = _ret(evr.run_fn(ctx.fn(MIL, 'all_indices'), [2], {'reduce': True}))
+        rows = sorted(tuple(int(v) for v in row) for row in r) if r is not None else None
+        want = sorted(t for t in itertools.product(range(-2, 3), repeat=3) if t != (0, 0, 0) and math.gcd(*t) == 1)
+        ctx.ob('UTIL', loc + 'all_indices', 'all_indices(2, reduce=True) lists every coprime triple with indices between -2 and 2 (98 directions), each exactly once', rows == want,
+               'got %d rows, %d of the expected ones missing' % (len(rows) if rows else -1, len(set(want) - set(rows or []))), node=ctx.fn(MIL, 'all_indices'), key='all_indices reduced')
+    except WouldRaise as e:
+        ctx.ob('UTIL', loc + 'all_indices', 'all_indices(2, reduce=True) lists every coprime triple with indices between -2 and 2 (98 directions), each exactly once', False, str(e)[:200], node=ctx.fn(MIL, 'all_indices'), key='all_indices reduced')
+    except Opaque as e:
+        raise AnalysisError('all_indices(reduce=True): %s' % e)
     # fromstring
     from fractions import Fraction
 
@@ -427,6 +458,27 @@ def family(ctx):
                 raise AnalysisError('%sidentifyfamily on a %s cell: %s' % (owner, ctor, e))
             ctx.ob('FAMILY', rel + '::' + owner + 'identifyfamily', 'a generic %s cell is identified as %s' % (fam, fam), first == fam, 'identified as %s (predicates %s)' % (first, res), node=idf, key='%s identify %s' % (rel, ctor))
     ctx.floor('FAMILY', n, 7)
+    # triclinic cells with exactly one right angle (three different angles, three different lengths): accepted by Box.triclinic, so they are triclinic for the predicates too
+    L1, L2, L3 = [sp.Symbol('l%d' % i, positive=True) for i in (1, 2, 3)]
+    AU, AV = sp.Symbol('ang_u', positive=True), sp.Symbol('ang_v', positive=True)
+
+    def _isclose(x, y, **k):
+        return sp.simplify(sp.sympify(x) - sp.sympify(y)) == 0
+    for tag, angs in (('gamma = 90', (AU, AV, sp.Integer(90))), ('alpha = 90', (sp.Integer(90), AU, AV)), ('beta = 90', (AU, sp.Integer(90), AV))):
+        pvals = dict(zip(('a', 'b', 'c', 'alpha', 'beta', 'gamma'), (L1, L2, L3) + angs))
+        for rel, owner in ((BOX, 'Box.'), (CS, '')):
+            mod = ctx.mod(rel)
+            out = {}
+            for what in ('istriclinic', 'identifyfamily'):
+                ev = SymEval(module_aliases(mod))
+                ev.np_override = {'numpy.isclose': _isclose}
+                ev.globals = {'warnings': _Warn(), 'warnmsg': '', 'PendingDeprecationWarning': 'PendingDeprecationWarning'}
+                try:
+                    out[what] = _ret(ev.run_fn(ctx.fn(rel, owner + what), [SymObj(cls if rel == BOX else None, dict(pvals), 'self')], {}))
+                except Opaque as e:
+                    raise AnalysisError('%s%s on a triclinic cell with %s: %s' % (owner, what, tag, e))
+            ctx.ob('FAMILY', rel + '::' + owner + 'istriclinic', 'a cell with three different lengths and three different angles of which one is a right angle (%s) is triclinic, and identified as such' % tag,
+                   out['istriclinic'] is True and out['identifyfamily'] == 'triclinic', str(out), node=ctx.fn(rel, owner + 'istriclinic'), key='%s one right angle %s' % (rel, tag))
 
 
 class _Warn(PyStub):
